@@ -2,6 +2,7 @@ package keyproof
 
 import (
 	"github.com/privacybydesign/gabi/big"
+	"github.com/privacybydesign/gabi/internal/simhook"
 	"github.com/privacybydesign/gabi/safeprime"
 )
 
@@ -59,6 +60,7 @@ func findSafePrime(size int) *big.Int {
 		resultChan, errChan := safeprime.GenerateConcurrent(size, stop)
 		select {
 		case result = <-resultChan:
+			simhook.Yield("findSafePrime:before-stop")
 			stop <- struct{}{}
 			break
 		case err = <-errChan:
